@@ -55,7 +55,16 @@ const PAIR: [(&str, &str, &str, &str, bool, u64); 6] = [
 ];
 /// every credential, weakest first (so that an unexpected effect of a weak credential is not
 /// masked by an earlier, legitimate one)
-const CREDS: [&str; 9] = ["none", "wrong", "xe", "re", "pv", "po", "pe", "pa", "admin"];
+/// strings that are no token but share something with one (kind "wrong" in the specification)
+const NEAR: [(&str, &str); 6] = [
+    ("w-empty", ""),
+    ("w-prefix", "zq-admin-token-7f3"),
+    ("w-ext", "zq-admin-token-7f3ax"),
+    ("w-case", "ZQ-ADMIN-TOKEN-7F3A"),
+    ("w-pprefix", "zq-pair-admin-d"),
+    ("w-pext", "zq-pair-admin-d4 "),
+];
+const CREDS: [&str; 15] = ["none", "wrong", "w-empty", "w-prefix", "w-ext", "w-case", "w-pprefix", "w-pext", "xe", "re", "pv", "po", "pe", "pa", "admin"];
 /// strings that occur only in runtime state; none of them may show up in a refusal
 const SENTINELS: [&str; 8] = [RES, "zq_g", "zq_run", "zqloglevel", "zq-svc", ADMIN_TOKEN, "zq-pair-", "zq_speed"];
 
@@ -92,6 +101,7 @@ fn cred_json(label: &str) -> J {
     match label {
         "none" => json!({"kind": "none", "role": -1, "st": ""}),
         "wrong" => json!({"kind": "wrong", "role": -1, "st": ""}),
+        w if w.starts_with("w-") => json!({"kind": "wrong", "role": -1, "st": &w[2..]}),
         "admin" => json!({"kind": "admin", "role": 3, "st": ""}),
         _ => {
             let p = PAIR.iter().find(|p| p.0 == label).unwrap_or_else(|| panic!("credential {label}"));
@@ -105,6 +115,7 @@ fn cred_token(label: &str) -> Option<&'static str> {
     match label {
         "none" => None,
         "wrong" => Some(WRONG_TOKEN),
+        w if w.starts_with("w-") => Some(NEAR.iter().find(|n| n.0 == w).unwrap_or_else(|| panic!("credential {w}")).1),
         "admin" => Some(ADMIN_TOKEN),
         _ => Some(PAIR.iter().find(|p| p.0 == label).unwrap().1),
     }
